@@ -84,7 +84,11 @@ def main(tier, replay):
         outcome = "fatal" if r.get("fatal") else ("committed" if any(w.get("start") == r.get("start_ts") and w["type"] in ("Put", "Delete", "Del") for a in (r.get("audit") or {}).values() for w in (a or {}).get("writes", [])) else "rolledback")
         dk = f"{sc['txn']['mode']}/{'pess' if sc['txn']['pessimistic'] else 'opt'}/told={str(r.get('told'))[:12]}/{outcome}"
         dist[dk] = dist.get(dk, 0) + 1
-        if bad:
+        if bad and bad[0].startswith("driver-fatal"):
+            nviol += 1
+            if nviol <= 5:
+                v.violation({"kind": "harness", "correspondence": "txn driver (environment)", "error": bad[0], "scenario": sc}, has_input=False)
+        elif bad:
             nviol += 1
             if nviol <= 5:
                 v.violation({"kind": "property-oracle", "scenario": sc, "violated": bad, "told": r.get("told"), "audit": r.get("audit"),
@@ -96,6 +100,9 @@ def main(tier, replay):
     cov.update(acc)
     if not gate["ok"]:
         v.violation({"kind": "proof", "theorem_or_file": gate["problems"], "what": "Coq obligations no longer check"}, has_input=False)
+    elif tier == "thorough":
+        from perc_gate import thorough_coqchk
+        thorough_coqchk("Verif.Percolator.Props", cov, v)
     cov.update(evaluations=len(allsc), distinct_nontrivial=len(distinct),
                rule="shapes (1-4 keys, 1-3 regions, put/del/insert/insert-delete/lock-only) x {2pc, async, 1pc} x {optimistic, pessimistic} x RPC index i x {request never delivered, delivered but unanswered}, 12% with a reader/writer/GC/split at the crash instant; recovery by fresh clients (reads with TTL elapsed, then GC lock resolution); audit = boolean form of C02 (i)-(v) on MvccGetByKey of every key; distinct non-trivial = distinct (shape, mode, crash point, extras) that actually crashed the client",
                samples=samples, input_distribution=dist, exhaustive=(tier != "quick"))
